@@ -9,7 +9,6 @@ import (
 	"log/slog"
 	"sort"
 	"testing"
-	"time"
 
 	"github.com/osrg/gobgp/v4/internal/verif/vr"
 )
@@ -201,8 +200,13 @@ func (w *c11BWorld) main(fl, mask, filler, n int) []c11Item {
 		}
 		pfx[i] = c11GenPrefix(fam, m, j)
 	}
-	// a fresh table per group: the local path ids come from its destination.Calculate
-	w.cacheKey, w.cache = key, w.announce(c11NewTables(), fl, c11Spec(fl, filler), pfx)
+	// local path ids come from destination.Calculate; large groups get a fresh table (dropped with the
+	// group), small ones share the worker's table (a re-announcement by the same peer keeps id 1)
+	tbls := w.byTbls
+	if n > 512 {
+		tbls = c11NewTables()
+	}
+	w.cacheKey, w.cache = key, w.announce(tbls, fl, c11Spec(fl, filler), pfx)
 	return w.cache
 }
 
@@ -252,8 +256,7 @@ func (w *c11BWorld) run(c *c11Ctx, cs c11BCase, logs func() int64) {
 	c11Check(c, cs.Cfg, items, func() any { cs.Part = "boundary"; cs.Text = cs.describe(); return cs }, logs)
 }
 
-// c11BoundaryCases lists the sweep. seq = cases that contain a route too large for any message
-// (run one at a time so that log records can be attributed).
+// c11BoundaryCases lists the sweep. seq = cases that contain a route too large for any message.
 func c11BoundaryCases(thorough bool) (par, seq []c11BCase, bounds map[string]any) {
 	bounds = map[string]any{}
 	masks := [][]int{{0, 8, 24, 32, c11MaskMix}, {0, 32, 64, 128, c11MaskMix}, {8, 24, 32, c11MaskMix}}
@@ -384,7 +387,7 @@ func TestVerif_C11_Boundary(t *testing.T) {
 	r := vr.Start(t, "C11", "boundary")
 	defer r.Finish()
 	r.Rule = "deterministic sweeps per route flavour x {ADD-PATH off,on} x {extended message off,on} x prefix lengths: (count) N routes sharing a small attribute set whose filler attribute steps across the 255/256 extended-length boundary, N around the number that fits one message and its multiples, up to 20000; (withdraw) N withdrawals likewise; (size) a filler attribute sized so that the single-route message is limit-k octets for every k in the stated range, N around the fitting count, with and without bystander routes. evaluations = cases. distinct_nontrivial = distinct (config, packing shape) reached (see part lists)"
-	counter := &c11LogCounter{}
+	counter := &c11LogCounter{m: map[uint64]int64{}}
 	old := slog.Default()
 	slog.SetDefault(slog.New(counter))
 	defer slog.SetDefault(old)
@@ -393,16 +396,18 @@ func TestVerif_C11_Boundary(t *testing.T) {
 		if err := r.LoadReplay(&cs); err != nil {
 			t.Fatal(err)
 		}
-		c11NewBWorld(t).run(c11NewCtx(r), cs, counter.n.Load)
+		c := c11NewCtx(r)
+		c11NewBWorld(t).run(c, cs, counter.mine())
+		c11Flush(r, []*c11Ctx{c})
 		return
 	}
-	t0 := time.Now()
-	par, seq, bounds := c11BoundaryCases(vr.Thorough())
+	par, over, bounds := c11BoundaryCases(vr.Thorough())
 	for k, v := range bounds {
 		r.Bounds[k] = v
 	}
-	r.Bounds["cases_parallel"] = len(par)
-	r.Bounds["cases_with_oversize_route"] = len(seq)
+	r.Bounds["cases_all_routes_fit"] = len(par)
+	r.Bounds["cases_with_oversize_route"] = len(over)
+	par = append(par, over...)
 	// cases that share (flavour, prefix lengths, attribute set) share their paths: keep them on one
 	// worker, largest N first; groups are spread over the workers by decreasing cost
 	W := vr.Workers()
@@ -437,11 +442,15 @@ func TestVerif_C11_Boundary(t *testing.T) {
 		load[best] += cost[k]
 		plan[best] = append(plan[best], groups[k]...)
 	}
+	ctxs := make([]*c11Ctx, W)
 	r.Parallel(W, func(wk int, rep *vr.Report) {
 		c := c11NewCtx(rep)
+		ctxs[wk] = c
 		w := c11NewBWorld(t)
+		logs := counter.mine()
 		for j, i := range plan[wk] {
-			w.run(c, par[i], nil)
+			c.idx = int64(par[i].N)*1000000 + int64(i) // fewest routes first
+			w.run(c, par[i], logs)
 			if c.WantSample() && j%(len(plan[wk])/2+1) == 1 {
 				cs := par[i]
 				cs.Part, cs.Text = "boundary", cs.describe()
@@ -449,11 +458,5 @@ func TestVerif_C11_Boundary(t *testing.T) {
 			}
 		}
 	})
-	r.Extra["parallel_phase_wall_s"] = time.Since(t0).Seconds()
-	// cases with a route that fits no message: one at a time, log records attributed to the call
-	c := c11NewCtx(r)
-	w := c11NewBWorld(t)
-	for _, cs := range seq {
-		w.run(c, cs, counter.n.Load)
-	}
+	c11Flush(r, ctxs)
 }
